@@ -152,7 +152,7 @@ func (ll *LevelList) GetPots() []*Pot {
 		for _, p := range pots {
 			p.Contributors[pIdx] = wager
 
-			if wager < p.Level {
+			if wager <= p.Level {
 				break
 			}
 		}
